@@ -200,6 +200,45 @@ func (c c07) runProgram(dir string, prog []walOp, max uint64, buf int, r *core.R
 		if op.Op != "R" {
 			appended = append(appended, recs[op.Rec])
 		}
+		// the log handle replays itself after every step (the same object again and again, across rotations): it must
+		// deliver everything appended so far, each time
+		var sofar [][]byte
+		err = log.Replay(func(rec []byte) error {
+			sofar = append(sofar, append([]byte{}, rec...))
+			return nil
+		})
+		r.Evals++
+		if err != nil {
+			viol("replay through the open handle after op %d failed: %v", i, err)
+			log.Close()
+			return
+		}
+		// (unsynced appends may still sit in the write buffer: what is delivered must be a prefix that holds at least
+		// everything up to the last synchronous append or rotation)
+		minLen := 0
+		for j := 0; j <= i; j++ {
+			if prog[j].Op == "S" || prog[j].Op == "R" {
+				n := 0
+				for k := 0; k <= j; k++ {
+					if prog[k].Op != "R" {
+						n++
+					}
+				}
+				minLen = n
+			}
+		}
+		if len(sofar) > len(appended) || len(sofar) < minLen {
+			viol("replay through the open handle after op %d delivered %d records, appended %d (at least %d are flushed)", i, len(sofar), len(appended), minLen)
+			log.Close()
+			return
+		}
+		for j := range sofar {
+			if !bytes.Equal(sofar[j], appended[j]) {
+				viol("replay through the open handle after op %d: record %d = %s, appended %s", i, j, recStr(sofar[j]), recStr(appended[j]))
+				log.Close()
+				return
+			}
+		}
 	}
 	if err := log.Close(); err != nil {
 		viol("close: %v", err)
